@@ -1133,3 +1133,101 @@ def c15_job(job) -> List[Dict[str, Any]]:
                         break
                 out.append(_inst("R15.6", verdict, roles, "rate", desc, msg))
     return out
+
+
+def _run_predict_seeded(prog, roles, op, sizes, rels):
+    w = World(prog, roles, Box())
+    I = w.I
+    I.number_locals = True
+    I.explicit = True
+    common = prog.modules.get(f"{prog.package}.models.weng_lin.common")
+    if common is not None:
+        I.opaque_funcs = {common.funcs[n].fq for n in CORRECTIONS if n in common.funcs}
+    m = w.make_model(custom_gamma=False)
+    game_, players = build_game(w, sizes)
+    for a, b, r in rels:
+        w.state.rel_set(a, b, frozenset({r}))
+    I.events.clear()
+    I.raises.clear()
+    with sym_cap(TERM_CAP):
+        res = w.call(m, op, [game_], {})
+    return GameRun(roles.short, tuple(sizes), tuple(range(len(sizes))), w, players, res, list(I.undecided), list(I.raises), bool(w.state.bottom))
+
+
+def c11_rank_job(job) -> List[Dict[str, Any]]:
+    """R11.9: the ranking clause on every weak ordering of the returned probabilities of an explicit game. Phase 1 takes the
+    terms of the probabilities predict_rank returns; phase 2 assumes, for every weak ordering of these n terms, the relations
+    between them (3-point order domain; the same relation for their abs() and un-abs()ed forms) and evaluates predict_rank again:
+    whatever code produces the ranks (a rank-data helper, a sort, a direct scan) becomes concrete, the ranks are constants and are
+    compared with the statement."""
+    idx, tier = job
+    prog = Program()
+    roles = prog.roles()[idx]
+    out = []
+    from ..ai.values import TupleV
+
+    for n in (2, 3) + ((4,) if tier == "thorough" else ()):
+        sizes = (1,) * n
+        head = f"ranks agree with the returned probabilities on every weak ordering of {n} probabilities"
+        try:
+            r0 = _run_predict_seeded(prog, roles, "predict_rank", sizes, [])
+            bad = r0.ok()
+            items = None if bad else result_numbers(r0)
+        except Exception as e:  # noqa: BLE001
+            bad, items = f"abstract evaluation failed: {type(e).__name__}: {e}", None
+        if items is None or len(items) != n or not all(isinstance(x, TupleV) and len(x.items) == 2 and isinstance(x.items[1], Num) and x.items[1].sym is not None for x in items):
+            out.append(_inst("R11.9", "UNDECIDED", roles, "predict_rank", head, bad or "the result is not an explicit list of (rank, probability) pairs with symbolic probabilities"))
+            continue
+        syms = [x.items[1].sym for x in items]
+        if len(set(syms)) != n:
+            out.append(_inst("R11.9", "UNDECIDED", roles, "predict_rank", head, "two teams of the explicit game have the same probability term"))
+            continue
+
+        def forms(s):
+            fs = [s]
+            if s[0] == "abs":
+                fs.append(s[1])
+            else:
+                fs.append(("abs", s))
+            return fs
+
+        worst = "HOLDS"
+        for lv in weak_orderings(n):
+            # level 0 = the largest probability
+            rels = []
+            for i in range(n):
+                for j in range(i + 1, n):
+                    rel = "EQ" if lv[i] == lv[j] else ("GT" if lv[i] < lv[j] else "LT")
+                    for fa, fb in zip(forms(syms[i]), forms(syms[j])):
+                        rels.append((fa, fb, rel))
+            desc = f"{head}: " + describe(lv, "p").replace("<", ">")
+            try:
+                run = _run_predict_seeded(prog, roles, "predict_rank", sizes, rels)
+                bad = run.ok()
+                res = None if bad else result_numbers(run)
+            except Exception as e:  # noqa: BLE001
+                bad, res = f"abstract evaluation failed: {type(e).__name__}: {e}", None
+            ranks = None
+            if res is not None and len(res) == n and all(isinstance(x, TupleV) and len(x.items) == 2 and isinstance(x.items[0], Num) for x in res):
+                ranks = [x.items[0].const for x in res]
+            if ranks is None or any(not isinstance(r, int) or isinstance(r, bool) for r in ranks):
+                out.append(_inst("R11.9", "UNDECIDED", roles, "predict_rank", desc, bad or "the ranks are not integer constants under this ordering"))
+                worst = "UNDECIDED" if worst == "HOLDS" else worst
+                continue
+            problems = []
+            for i in range(n):
+                if not 1 <= ranks[i] <= n:
+                    problems.append(f"rank {ranks[i]} outside 1..{n}")
+                for j in range(n):
+                    if lv[i] < lv[j] and not ranks[i] < ranks[j]:
+                        problems.append(f"p{i} > p{j} but rank {ranks[i]} is not better than {ranks[j]}")
+                    if lv[i] == lv[j] and ranks[i] != ranks[j]:
+                        problems.append(f"p{i} = p{j} but the ranks are {ranks[i]} and {ranks[j]}")
+            if any(ranks[i] != 1 for i in range(n) if lv[i] == 0):
+                problems.append("the most likely team does not have rank 1")
+            if problems:
+                worst = "VIOLATED"
+                out.append(_inst("R11.9", "VIOLATED", roles, "predict_rank", desc, f"ranks {ranks}: " + "; ".join(sorted(set(problems))[:3])))
+            else:
+                out.append(_inst("R11.9", "HOLDS", roles, "predict_rank", desc))
+    return out
